@@ -124,7 +124,9 @@ inductive Branch where
 /-- response.go:84 `EntityWriter`: the possible writers and the branch; `[]` = `(nil, false)`, i.e.
     `WriteHeaderAndEntity` answers 406 -/
 def entityWriterTagged (accept : Str) (produces reg : List Str) (dflt : Str) : List Str × Branch :=
-  let w := walk reg produces (sortedMimes accept)
+  -- a missing Accept header is read as `*/*`, as the router does (repair of F07); the raw-header
+  -- lookup below still sees the header as it was sent
+  let w := walk reg produces (sortedMimes (if accept.isEmpty then starStar else accept))
   if !w.isEmpty then (w, .walk) else
   let w := accessorAt reg accept
   if !w.isEmpty then (w, .acceptKey) else
